@@ -36,7 +36,9 @@ Record case := mkCase {
   o_m0 : trace; o_m1 : trace; o_n0 : trace; o_n1 : trace;
   o_pats : list (nat * trace * trace);
   c_sched : list bool;             (* include_private setting before each next() *)
-  o_m_sw : trace; o_n_sw : trace }.
+  o_m_sw : trace; o_n_sw : trace;
+  (* tags / metadata / matches / module-output iterators: expected item count (when the rule set fixes it), trace *)
+  o_others : list (option nat * trace) }.
 
 Definition model_m (rules : list rule) (c : ctx) (inc : bool) : trace :=
   drain (is_priv rules) (include_private (matching_iter rules c) inc).
@@ -51,6 +53,8 @@ Definition model_p (pats : list bool) (inc : bool) : trace :=
 Definition model_sw (rules : list rule) (it : iter nat) (sched : list bool) : trace :=
   drain_sched (is_priv rules) (S (length (rem it))) it sched.
 
+Definition trace_items (t : trace) : nat := match t with None => 0 | Some (tr, _) => length tr end.
+
 Definition check_case (k : case) : bool :=
   let c := scan_rules (c_rules k) (verdict_of (c_conds k)) in
   trace_eqb (model_sw (c_rules k) (matching_iter (c_rules k) c) (c_sched k)) (o_m_sw k) &&
@@ -64,7 +68,8 @@ Definition check_case (k : case) : bool :=
   forallb (fun o => let '(id, t0, t1) := o in
              let pats := nth id (c_pats k) [] in
              trace_eqb (model_p pats false) t0 && trace_eqb (model_p pats true) t1)
-          (o_pats k).
+          (o_pats k) &&
+  forallb (fun o => match fst o with Some n => Nat.eqb (trace_items (snd o)) n | None => true end) (o_others k).
 
 (* S evaluated on the implementation's own output: every iterator announces,
    before each next(), exactly the number of items it is still going to yield,
@@ -105,6 +110,7 @@ Definition spec_case (k : case) : bool :=
   trace_sw_ok (o_m_sw k) (length (c_sched k)) && trace_sw_ok (o_n_sw k) (length (c_sched k)) &&
   trace_exact (o_m0 k) && trace_exact (o_m1 k) && trace_exact (o_n0 k) && trace_exact (o_n1 k) &&
   forallb (fun o => let '(_, t0, t1) := o in trace_exact t0 && trace_exact t1) (o_pats k) &&
+  forallb (fun o => trace_exact (snd o)) (o_others k) &&
   (* partition, private rules included *)
   list_nat_eqb (sort_nat (ids_of (o_m1 k) ++ ids_of (o_n1 k))) (seq 0 (length (c_rules k))) &&
   (* without include_private only non-private rules are yielded *)
